@@ -283,6 +283,11 @@ def run(model, tier="quick"):
     formula_check(res, model, "UniLpMarket.get_position_status", _U.REF_POSITION_STATUS,
                   "position status: liquidity + pending amounts valued by orientation", opaque=_C09.OPQ + ["get_position_amount", "_get_value"],
                   aliases=_C09.UNI_ALIASES)
+    # the price feeds name their columns by the right token (the valuation multiplies balances by the column of THEIR token)
+    from .price_refs import price_feeds
+    res.units["price_feed_references"] = price_feeds(res, model)
+    from .price_refs import price_table
+    price_table(res, model)
     from ..rules.fresh import fresh_rule
     if "R-FRESH" not in res.rules:
         res.rules.append("R-FRESH")
